@@ -66,6 +66,9 @@ KMap(a, b) == [g |-> "map", kk |-> a, vk |-> b]
 KStruct(es) == [g |-> "struct", es |-> es]
 KIfaces(es) == [g |-> "ifaces", es |-> es]
 KUdtMap(es) == [g |-> "udtmap", es |-> es]
+\* decode target for a UDT: a struct with Len(ix) fields, field j receiving UDT field ix[j] (any subset, any order);
+\* matched by cql tag, or by field name when byname.  UDT fields the struct lacks are skipped by the decoder.
+KPStruct(es, ix, byname) == [g |-> "pstruct", es |-> es, ix |-> ix, byname |-> byname]
 
 SeqAny(s, P(_)) == \E i \in 1 .. Len(s) : P(s[i])
 IsErr(v) == v.k = "err"
@@ -239,7 +242,29 @@ Canon(T, v) ==
   ELSE IF v.k = "bytes" /\ T.t = "inet" THEN VBytes(NormIP(v.b))
   ELSE v
 
+\* the same for a value decoded into a target of kind K (a partial struct lists UDT fields in its own order)
+RECURSIVE CanonK(_, _, _)
+CanonK(T, K, v) ==
+  IF K.g = "ptr" THEN CanonK(T, K.e, v)
+  ELSE IF v.k = "list" /\ T.t \in {"list", "set"} /\ K.g \in {"slice", "array"} THEN
+       LET es == [i \in 1 .. Len(v.es) |-> CanonK(T.e, K.e, v.es[i])] IN
+       IF T.t = "set" THEN [k |-> "set", n |-> Len(es), s |-> {es[i] : i \in 1 .. Len(es)}] ELSE [k |-> "list", es |-> es]
+  ELSE IF v.k = "map" /\ T.t = "map" /\ K.g = "map" THEN
+       [k |-> "mapset", n |-> Len(v.ps), s |-> {<<CanonK(T.kt, K.kk, v.ps[i].key), CanonK(T.vt, K.vk, v.ps[i].val)>> : i \in 1 .. Len(v.ps)}]
+  ELSE IF v.k = "tuple" /\ K.g = "pstruct" /\ T.t = "udt" /\ Len(v.es) = Len(K.ix) THEN
+       [k |-> "tuple", es |-> [j \in 1 .. Len(v.es) |-> CanonK(T.es[K.ix[j]], K.es[j], v.es[j])]]
+  ELSE IF v.k = "tuple" /\ T.t \in {"tuple", "udt"} /\ K.g \in {"struct", "ifaces"} /\ Len(v.es) = Len(K.es) /\ Len(v.es) = Len(T.es) THEN
+       [k |-> "tuple", es |-> [j \in 1 .. Len(v.es) |-> CanonK(T.es[j], K.es[j], v.es[j])]]
+  ELSE IF v.k = "tuple" /\ T.t = "tuple" /\ K.g \in {"slice", "array"} /\ Len(v.es) = Len(T.es) THEN
+       [k |-> "tuple", es |-> [j \in 1 .. Len(v.es) |-> CanonK(T.es[j], K.e, v.es[j])]]
+  ELSE IF v.k = "bytes" /\ T.t = "inet" THEN VBytes(NormIP(v.b))
+  ELSE v
+
 \* ------------------------------------------------------------ the documented conversion tables
+\* Go kinds "time_p9" / "time_m5": a time.Time whose Location is FixedZone(+09:00) / FixedZone(-05:00).  The abstract
+\* value is the instant (ms since the epoch), so everything below treats them like "time": the column value
+\* depends on the instant only (date = UTC day of the instant).  They are sources only (decodes come back in UTC).
+ZoneTimeKinds == {"time_p9", "time_m5"}
 IntKinds == {"int", "int8", "int16", "int32", "int64", "uint", "uint8", "uint16", "uint32", "uint64"}
 NamedIntKinds == {"nint", "nint8", "nint16", "nint32", "nint64", "nuint", "nuint8", "nuint16", "nuint32", "nuint64"}
 AllIntKinds == IntKinds \cup NamedIntKinds
@@ -260,10 +285,10 @@ Supported(t, g) ==
     [] t = "double" -> g = "float64"
     [] t = "decimal" -> g = "dec"
     [] t = "time" -> g \in {"int64", "nint64", "gdur"}
-    [] t = "timestamp" -> g \in {"int64", "nint64", "time"}
+    [] t = "timestamp" -> g \in {"int64", "nint64", "time"} \cup ZoneTimeKinds
     [] t \in UuidTypes -> g \in {"uuid", "arr16", "bytes", "string"}
     [] t = "inet" -> g \in {"ip", "string"}
-    [] t = "date" -> g \in {"int64", "time", "string"}
+    [] t = "date" -> g \in {"int64", "time", "string"} \cup ZoneTimeKinds
     [] t = "duration" -> g \in {"int64", "nint64", "gdur", "cdur", "string"}
     [] OTHER -> FALSE
 \* Unmarshal doc comment (marshal.go:195-224): CQL type | Go type pointed to.  varint has no row of its
@@ -407,6 +432,10 @@ ConvOut(T, cv, K) ==
        IF g # "map" \/ cv.k # "map" THEN VErr
        ELSE LET ps == [i \in 1 .. Len(cv.ps) |-> KV(ConvOut(T.kt, cv.ps[i].key, K.kk), ConvOut(T.vt, cv.ps[i].val, K.vk))] IN
             IF \E i \in 1 .. Len(ps) : IsErr(ps[i].key) \/ IsErr(ps[i].val) THEN VErr ELSE VMap(ps)
+  ELSE IF g = "pstruct" THEN
+       IF t # "udt" \/ cv.k # "tuple" \/ Len(cv.es) # Len(T.es) THEN VErr
+       ELSE LET es == [j \in 1 .. Len(K.ix) |-> ConvOut(T.es[K.ix[j]], cv.es[K.ix[j]], K.es[j])] IN
+            IF SeqAny(es, IsErr) THEN VErr ELSE VTuple(es)
   ELSE IF t \in {"tuple", "udt"} THEN
        \* a []interface{} target is honoured only at top level, where the caller supplies the pointers
        \* (ConvOutTop); nested, the driver chooses the dynamic types itself: no claim
@@ -434,6 +463,7 @@ OutMayErr(T, cv, K) ==
   ELSE IF cv.k = "null" THEN TRUE
   ELSE IF t \in {"list", "set"} THEN \E i \in 1 .. Len(cv.es) : OutMayErr(T.e, cv.es[i], K.e)
   ELSE IF t = "map" THEN \E i \in 1 .. Len(cv.ps) : OutMayErr(T.kt, cv.ps[i].key, K.kk) \/ OutMayErr(T.vt, cv.ps[i].val, K.vk)
+  ELSE IF g = "pstruct" THEN \E j \in 1 .. Len(K.ix) : OutMayErr(T.es[K.ix[j]], cv.es[K.ix[j]], K.es[j])
   ELSE IF t \in {"tuple", "udt"} THEN
        \E i \in 1 .. Len(cv.es) : OutMayErr(T.es[i], cv.es[i], IF g \in {"slice", "array"} THEN K.e ELSE K.es[i])
   ELSE TargetMayErr(t, g)
@@ -476,5 +506,7 @@ ASSUME Cardinality(Perms(3)) = 6 /\ SeqProduct(<<{1, 2}, {3}>>) = {<<1, 3>>, <<2
 ASSUME SrcAlts(NT("tinyint"), KK("uint8"), VI(200)) = {VErr} /\ SrcAlts(NT("date"), KK("time"), VI(-43200000)) = {VI(-1)}
 ASSUME Cardinality(SrcAlts(TMap(NT("text"), NT("int")), KMap(KK("string"), KK("int32")), VMap(<<KV(VBytes(<<97>>), VI(1)), KV(VBytes(<<98>>), VI(2))>>))) = 2
 ASSUME ConvOut(NT("int"), VI(200), KK("uint8")) = VI(200) /\ ConvOut(NT("int"), VI(-1), KK("uint8")) = VErr /\ ConvOut(NT("int"), VNull, KPtr(KK("int32"))) = VNull
+ASSUME SrcAlts(NT("date"), KK("time_p9"), VI(75600000)) = {VI(0)} /\ SrcAlts(NT("date"), KK("time_m5"), VI(10800000)) = {VI(0)} /\ Supported("time", "time_p9") = FALSE
+ASSUME ConvOut(TUdt(<<NT("int"), NT("text"), NT("int")>>), VTuple(<<VI(1), VBytes(<<97>>), VI(3)>>), KPStruct(<<KK("int32"), KK("int32")>>, <<3, 1>>, TRUE)) = VTuple(<<VI(3), VI(1)>>)
 ASSUME ConvOut(NT("date"), VI(-1), KK("time")) = VI(-86400000) /\ ConvOut(NT("int"), VNull, KK("int32")) = VI(0)
 =============================================================================
